@@ -132,6 +132,11 @@ pub fn random_bits(rng: &mut Rng, n: usize) -> Bits {
     v
 }
 
+/// Uniformly random bits (no run bias).
+pub fn random_bits_uniform(rng: &mut Rng, n: usize) -> Bits {
+    (0..n).map(|_| (rng.next() & 1) as u8).collect()
+}
+
 /// A length biased towards word boundaries (and +-1), at most `max`.
 pub fn random_len(rng: &mut Rng, max: usize) -> usize {
     let c = lattice_lens(max);
